@@ -64,6 +64,32 @@ Example c11_no_stale_into_reused_nonvacuous :
 Proof. split; [apply reach_run|exact w_reuse_spec]. Qed.
 Print Assumptions c11_no_stale_into_reused_nonvacuous.
 
+(* ---- expired connections (server gone) keep what was delivered ------------------------------ *)
+(* Receiver::receive_from_to_be_removed_connections (fix 9915d96): a poll of one pending response
+   on its own, empty channel never releases the connection of a vanished server while ANY
+   channel of that connection still has data or borrows -- a response delivered before the
+   server went away stays receivable whichever sibling PendingResponse polls first.  (Before
+   the fix the model released the connection whenever no channel had borrows: a known loss.)
+   The connection is released exactly when nothing is left. *)
+Theorem c11_expired_connection_keeps_data : forall g s cl ch k,
+  c_sub (k_chan k ch) = [] -> lenN (c_bor (k_chan k ch)) <> MB g ->
+  (existsb chan_has_data_or_borrows (k_ch k) = true -> poll_retained g s cl ch [k] = (s, R1None)) /\
+  (existsb chan_has_data_or_borrows (k_ch k) = false ->
+     poll_retained g s cl ch [k] = (upd_conn s cl (k_sv k) (fun k => k_with_cv k VNone), R1None)).
+Proof. intros. split; [apply retained_kept|apply retained_released]; assumption. Qed.
+Print Assumptions c11_expired_connection_keeps_data.
+(* non-vacuity: the sibling-polls-first history on the model (kernel-evaluated): server and both
+   active requests gone, pending_b.receive() = None leaves a's response queued, pending_a
+   receives it *)
+Example c11_expired_connection_keeps_data_nonvacuous :
+  let s := run cfg4 w_sibling in
+  reach cfg4 s /\ s_sreg s = [] /\ digest_p s = [(0, false, true); (1, false, false)] /\
+  snd (step cfg4 ord_all s (Pr 1)) = ORecvNone /\
+  digest_p (fst (step cfg4 ord_all s (Pr 1))) = [(0, false, true); (1, false, false)] /\
+  snd (step cfg4 ord_all (fst (step cfg4 ord_all s (Pr 1))) (Pr 0)) = OResp 0.
+Proof. split; [apply reach_run|exact w_sibling_spec]. Qed.
+Print Assumptions c11_expired_connection_keeps_data_nonvacuous.
+
 (* ---- routing ------------------------------------------------------------------------------ *)
 (* The clause as the property states it: every response handed out through a pending response
    carries its request id AND was sent by an ActiveRequest of a request of the SAME client. *)
